@@ -516,6 +516,39 @@ func TestCheck(t *testing.T) {
 	// inside a view the names are a, b, e, f ...: a universe over these
 	inView := gen.Config{Symlinks: false, Root: true, Base: "", NoTemp: true, NoChown: false}
 	adv := []string{"/..", "/../out", "../out", "../../w/out", "/abslink", "/rellink", "/dirlink/x", "/dirlink", "/a/../../out", "abslink", "/../other/x"}
+	// the permission bits of a view's own directory: a view rooted at a directory its user may not
+	// search or read answers as the parent does on the prefixed paths - for the directory itself
+	// (no permission of its own needed) and for what is below it (search permission needed)
+	{
+		_, us := newMem()
+		n := 0
+		ops := []fsx.Op{{K: "Stat", P: "/"}, {K: "Lstat", P: "/"}, {K: "ReadDir", P: "/"}, {K: "Open", P: "/", H: 0}, {K: "Chmod", P: "/", Perm: 0o755}, {K: "Chtimes", P: "/", MT: 1000000000},
+			{K: "Chdir", P: "/"}, {K: "Stat", P: "/a"}, {K: "ReadFile", P: "/a/b"}, {K: "Mkdir", P: "/n", Perm: 0o755}, {K: "Stat", P: "/e/f"}, {K: "Remove", P: "/rellink"}, {K: "Rename", P: "/e", P2: "/e2"}}
+		for _, owner := range []int{0, 1} {
+			for _, mode := range []uint32{0o777, 0o700, 0o600, 0o070, 0o060, 0o007, 0o707, 0o770, 0o000, 0o1777} {
+				for _, user := range []int{1, 2, 0} {
+					for _, o := range ops {
+						n++
+						if n%c.NShards != c.Shard {
+							continue
+						}
+						cs := Case{Views: []string{"/w/d"}, Prefix: prefix}
+						if owner != 0 {
+							cs.Steps = append(cs.Steps, Step{On: 0, Op: fsx.Op{K: "Chown", P: "/w/d", Uid: us[owner].Uid(), Gid: us[owner].Gid()}})
+						}
+						cs.Steps = append(cs.Steps, Step{On: 0, Op: fsx.Op{K: "Chmod", P: "/w/d", Perm: mode}}, Step{On: 1, Set: "user", Val: user}, Step{On: 1, Op: o}, Step{On: 1, Op: fsx.Op{K: "Getwd"}})
+						if dev := run(c, cs); dev != nil {
+							c.Report(dev, cs)
+						}
+						if user != 0 && mode&0o111 != 0o111 {
+							c.NonTrivial(vt.Hash64("viewroot", fmt.Sprint(owner, mode, user), o.String()))
+						}
+					}
+				}
+			}
+		}
+		c.Extra("view_root_permissions", fmt.Sprintf("%d cases over 2 owners x 10 modes of the view's directory x 3 users x %d calls", n, len(ops)))
+	}
 	c.Rapid("hist", c.Pick(2500, 60000), func(t *rapid.T) *vt.Failure {
 		cs := Case{Views: rapid.SampledFrom(viewSets).Draw(t, "views"), Prefix: prefix}
 		in, err := newInst(cs)
@@ -664,6 +697,11 @@ func outOfDomain(in *inst, on int, o fsx.Op) bool {
 			d := v.dir
 			if d == "" {
 				d = "/"
+			}
+			if a == d && (o.K == "Chmod" || o.K == "Chown" || o.K == "Lchown") && d != "/" {
+				// the permission bits of the view's own directory are consulted through the view
+				// exactly as through the parent (search permission of the directory a walk starts in)
+				continue
 			}
 			if a == d || strings.HasPrefix(d, strings.TrimSuffix(a, "/")+"/") {
 				return true
